@@ -532,6 +532,12 @@ func (p *Program) staticEffects(cfg *PropConfig, ld LoadSpec) []*Obligation {
 						}
 					}
 				case *ssa.Call:
+					// process-local mutable state held by a keeper (a cache, a memo table): what it returns depends on what this
+					// process happened to execute before (CheckTx, simulations, rolled-back transactions, a restart), not on chain data
+					if sc := in.Call.StaticCallee(); sc != nil && syncMutators[sc.String()] && !wiring && !strings.HasPrefix(fn.Name(), "New") && allowed["globalwrite"] == "" {
+						nsites++
+						gwrite = append(gwrite, fmt.Sprintf("%s calls %s: process-local mutable state outside start-up wiring (%s)", key, sc.String(), x.pos(in.Pos())))
+					}
 					for _, a := range in.Call.Args {
 						if g, ok := a.(*ssa.Global); ok && repoGlobal(x, g) && mutableState(g.Type()) && !wiring && allowed["globalwrite"] == "" {
 							nsites++
@@ -568,6 +574,10 @@ func (p *Program) staticEffects(cfg *PropConfig, ld LoadSpec) []*Obligation {
 						gwrite = append(gwrite, fmt.Sprintf("%s stores into package-level %s.%s (%s)", key, g.Pkg.Pkg.Name(), g.Name(), x.pos(in.Pos())))
 					}
 				case *ssa.MapUpdate:
+					if heldByParam(in.Map) && !wiring && !strings.HasPrefix(fn.Name(), "New") && allowed["globalwrite"] == "" {
+						nsites++
+						gwrite = append(gwrite, fmt.Sprintf("%s updates a Go map held in a field of its receiver or of a parameter: process-local mutable state outside start-up wiring (%s)", key, x.pos(in.Pos())))
+					}
 					if g := globalRoot(in.Map); g != nil && repoGlobal(x, g) && !wiring && allowed["globalwrite"] == "" {
 						nsites++
 						gwrite = append(gwrite, fmt.Sprintf("%s updates the package-level map %s.%s (%s)", key, g.Pkg.Pkg.Name(), g.Name(), x.pos(in.Pos())))
@@ -897,6 +907,38 @@ func (p *Program) loopWrites(body map[*ssa.BasicBlock]bool, resolve func(ssa.Val
 
 // globalRoot: the package-level variable an address or a container value is derived from (field / element addresses,
 // loads of a global map or slice), or nil.
+// mutators of the process-local containers of package sync
+var syncMutators = map[string]bool{
+	"(*sync.Map).Store": true, "(*sync.Map).LoadOrStore": true, "(*sync.Map).LoadAndDelete": true, "(*sync.Map).Delete": true,
+	"(*sync.Map).Swap": true, "(*sync.Map).CompareAndSwap": true, "(*sync.Map).CompareAndDelete": true, "(*sync.Map).Clear": true,
+	"(*sync.Pool).Put": true,
+}
+
+// heldByParam: the value is read from a field (of a field ...) of a parameter or receiver - state that outlives the call
+func heldByParam(v ssa.Value) bool {
+	sawField := false
+	for i := 0; i < 8; i++ {
+		switch t := v.(type) {
+		case *ssa.Parameter:
+			return sawField
+		case *ssa.FieldAddr:
+			sawField = true
+			v = t.X
+		case *ssa.Field:
+			sawField = true
+			v = t.X
+		case *ssa.UnOp:
+			if t.Op != token.MUL {
+				return false
+			}
+			v = t.X
+		default:
+			return false
+		}
+	}
+	return false
+}
+
 func globalRoot(v ssa.Value) *ssa.Global {
 	for i := 0; i < 8; i++ {
 		switch t := v.(type) {
